@@ -24,6 +24,29 @@ LEAN_MODULES = ["LenaModel.Props.C06"]
 LEAN_SOURCES = ["LenaModel/Model/C06.lean", "LenaModel/Lemmas/C06.lean", "LenaModel/Props/C06.lean"]
 DRIVER = "drivers/C06.lean"
 THEOREMS = [
+    "Lena.C06.bin1d_spec",
+    "Lena.C06.bin1d_halfopen",
+    "Lena.C06.bin1d_guess_independent",
+    "Lena.C06.bin1d_returns",
+    "Lena.C06.getBinOnValue_spec",
+    "Lena.C06.getBinOnValue_wrong_length",
+    "Lena.C06.inCell_unique",
+    "Lena.C06.fill_exact_cell",
+    "Lena.C06.fill_out_of_range",
+    "Lena.C06.fill_frame",
+    "Lena.C06.fill_conserves",
+    "Lena.C06.fill_wf",
+    "Lena.C06.fillAll_conserves",
+    "Lena.C06.fillAll_ok",
+    "Lena.C06.weight_conserved",
+    "Lena.C06.getNevents_eq",
+    "Lena.C06.checkEdgesIncreasing_ok",
+    "Lena.C06.checkEdgesIncreasing_err",
+    "Lena.C06.mkHist_valid",
+    "Lena.C06.mkHist_invalid",
+    "Lena.C06.elem_fill_exact_cell",
+    "Lena.C06.elem_fill_out_of_range",
+    "Lena.C06.elem_weight_conserved",
 ]
 TRUSTED = [
     "Lean 4.33.0 kernel; axioms limited to propext, Classical.choice, Quot.sound (audited by #print axioms on every run)",
@@ -128,7 +151,8 @@ def gen_axis(rng, n, fam):
             xs = sorted(xs)
         elif fam == "outlier":
             big = rng.choice([1e18, 2.0 ** 60, 1e300, 1e30, 2 ** 60, 10 ** 18, 1e15, 3e16])
-            small = sorted(rng.sample([-5, -3, -1, 0, 1, 2, 3, 4, 7, -5.5, 0.25, 0.5, 1.5, 2.5, 1e-3, 1e-300], n - 1))
+            palette = [-5, -3, -1, 0, 1, 2, 3, 4, 7, -5.5, 0.25, 0.5, 1.5, 2.5, 1e-3, 1e-300]
+            small = sorted(rng.sample(palette if n - 1 <= len(palette) else list(range(-50, 50)), n - 1))
             if n >= 4 and rng.random() < 0.25:
                 xs = [-big] + small[:n - 2] + [big]
             elif rng.random() < 0.6:
@@ -649,6 +673,11 @@ def compare(case, res, replies):
         for k in ("bins", "oor", "nev", "nev_in"):
             if res[k] != m[k]:
                 return f"final {k}: impl {res[k]} vs model {m[k]}"
+        # the model's fillAll (the whole sequence; the first exception ends it)
+        first_err = next((st["e"] for st in res["steps"] if "e" in st), None)
+        want_all = {"e": first_err} if first_err is not None else {"bins": res["bins"], "oor": res["oor"]}
+        if m["all"] != want_all:
+            return f"fillAll: impl {_short(want_all)} vs model {_short(m['all'])}"
         return None
     if op == "elem":
         for k in ("bins", "oor", "ctx"):
